@@ -237,9 +237,16 @@ func genRbsDoc(r *RNG) []rbsClass {
 		if i > 0 && !c.module && r.Bool() && !out[0].module {
 			c.super = out[0].name
 		}
+		var nsType *rbsTypeSpec
+		if i == 0 && r.Bool() {
+			// a nested class, used as a parameter type under its qualified name
+			c.nested = []rbsClass{{name: "Inner", methods: []rbsMethod{{name: "initialize", overloads: []rbsOverload{{ret: rbsTypeSpec{rbsT{"class": "void"}, []string{"NilClass"}, ""}}}}}}}
+			nsType = &rbsTypeSpec{rbsInst(c.name + "::Inner"), []string{c.name + "::Inner"}, "nsv"}
+		}
 		nm := 1 + r.Intn(4)
 		for k := 0; k < nm; k++ {
 			m := rbsMethod{name: fmt.Sprintf("rm%d", k), singleton: c.module || r.Chance(1, 3)}
+			nsMethod := false
 			no := 1
 			if r.Chance(1, 4) {
 				no = 2
@@ -249,6 +256,11 @@ func genRbsDoc(r *RNG) []rbsClass {
 				o := genRbsOverload(r)
 				if m.arity {
 					un := rbsTypeSpec{rbsT{"class": "untyped"}, []string{"Untyped"}, "1"}
+					if nsType != nil && q == 0 && r.Chance(1, 3) || (q > 0 && nsMethod) {
+						// every parameter takes an instance of the nested class
+						un = *nsType
+						nsMethod = true
+					}
 					for i := range o.req {
 						o.req[i] = un
 					}
@@ -512,6 +524,10 @@ func judgeRbs(c *CheckCtx, s *Slot, classes []rbsClass, rc *rbsCase) *Violation 
 	}
 	var exps []expect
 	row := 0
+	if len(classes) > 0 && len(classes[0].nested) > 0 {
+		row++
+		fmt.Fprintf(&sb, "nsv = %s::Inner.new\n", classes[0].name)
+	}
 	for _, cl := range classes {
 		recv := ""
 		if !cl.module {
@@ -649,7 +665,7 @@ func init() {
 			return judgeRbs(c, s, nil, &rc)
 		},
 		Run: func(c *CheckCtx) {
-			c.rule = "generated RBS AST documents (the JSON the embedded Ruby script prints: classes, modules, superclasses, instance/singleton methods, 1-2 overloads with required/optional/rest/trailing positionals, 0-5 required/optional keywords, blocks, initialize) fed to ti-rbs2json through a stand-in `ruby` first on PATH that prints the prepared document; each document is converted 6 times (byte equality), the emitted argument order/flags and the type mapping are compared with the declaration, and ti - loaded with the shipped configuration plus the emitted classes - is asked to check calls with 0..6 positional arguments (required keywords supplied), which must be accepted exactly when some overload's arity admits them. distinct_nontrivial = distinct documents"
+			c.rule = "generated RBS AST documents (the JSON the embedded Ruby script prints: classes, modules, superclasses, instance/singleton methods, 1-2 overloads with required/optional/rest/trailing positionals, 0-5 required/optional keywords, blocks, initialize, a nested class used as parameter type under its qualified name) fed to ti-rbs2json through a stand-in `ruby` first on PATH that prints the prepared document; each document is converted 6 times (byte equality), the emitted argument order/flags and the type mapping are compared with the declaration, and ti - loaded with the shipped configuration plus the emitted classes - is asked to check calls with 0..6 positional arguments (required keywords supplied), which must be accepted exactly when some overload's arity admits them. distinct_nontrivial = distinct documents"
 			c.assumptions = []string{"the stand-in `ruby` replaces only the `rbs` parser invocation; the converter binary itself is the real one built from the tree", "type mapping judged: Integer, String, Float, Symbol, bool, nil, void, untyped, self, optional, union, Array[T], Hash"}
 			r := c.RNG.Sub(25)
 			n := c.N(70, 1500)
